@@ -36,7 +36,7 @@ CW = 'chainables.courier_worker'
 
 
 def run(ctx: Ctx):
-  for r in (r1, r2, r3, r4, r5, r6, r7, r10, r11, r13, r14, r15, r16):
+  for r in (r1, r2, r3, r4, r5, r6, r7, r10, r11, r13, r14, r15, r16, r17, r18):
     ctx.guard(r)
   from mlmverif.props import c03
   ctx.include('R-C16-9', '"delivers exactly one final aggregate result": the'
@@ -521,6 +521,70 @@ def r11(ctx: Ctx):
   ctx.floor(rule, 2, n)
 
 
+def r17(ctx: Ctx):
+  rule = 'R-C16-17'
+  ctx.rule(rule, '"equals in-process execution ... with or without batch outputs": only the CHAIN drops its outputs when the caller'
+           ' asks for the aggregate alone (with_result=False, as the sharded runner does with with_batch_output=False). In'
+           ' ChainedRunner.iterate the per-runner `r.iterate(...)` calls of the loop over the runners do not receive the'
+           ' caller\'s `with_result`: an upstream runner that returns None per batch feeds None into the next transform —'
+           ' the fault-free sharded run of a chained pipeline fails or aggregates nothing')
+  fi = ctx.repo.func('chainables.transform', 'ChainedRunner.iterate')
+  n = 0
+  for lp in walk_no_nested(fi.node):
+    if not (isinstance(lp, ast.For) and 'runner' in unparse(lp.iter).lower()):
+      continue
+    lv = {y.id for y in ast.walk(lp.target) if isinstance(y, ast.Name)}
+    for c in ast.walk(lp):
+      if isinstance(c, ast.Call) and isinstance(c.func, ast.Attribute) and c.func.attr == 'iterate' and isinstance(
+          c.func.value, ast.Name) and c.func.value.id in lv:
+        n += 1
+        kw = kwarg(c, 'with_result')
+        dep = kw is not None and any(isinstance(y, ast.Name) and y.id in lv for y in ast.walk(kw))
+        what = 'ChainedRunner.iterate: the stages of a chain always hand their batches on'
+        if kw is None or dep:
+          ctx.ok(rule, fi, what, c)
+        else:
+          ctx.fail(rule, fi, what,
+                   f'`with_result={unparse(kw)}` is passed to EVERY runner of the chain: with with_result=False an upstream'
+                   ' runner yields None instead of its batch and the next transform is fed None — only the chained iterator'
+                   ' (the last hop to the caller) may drop the outputs', node=kw)
+  if not n:
+    raise AnalysisError(f'{rule}: the loop over the runners of ChainedRunner.iterate was not found')
+  ctx.floor(rule, 1, n)
+
+
+def r18(ctx: Ctx):
+  rule = 'R-C16-18'
+  ctx.rule(rule, '"fault-free distributed execution equals in-process execution" on servers that are started again (after a'
+           ' stop, an idle auto-shutdown, a master re-used by the next run): a shutdown request belongs to ONE life of the'
+           ' server. The flag is cleared where a new underlying server is constructed — the block of build_server() that'
+           ' creates `courier.Server(...)` also stores `self._shutdown_requested = False`. Cleared only at the top of the'
+           ' serving loop (whose thread start() spawns once per object), a restarted server answers every generator request'
+           ' with "Shutdown requested" for ever')
+  fi = ctx.repo.func('chainables.courier_server', 'CourierServer.build_server')
+  n = 0
+  for x in ast.walk(fi.node):
+    if isinstance(x, ast.Assign) and any(is_self_attr(t, '_server') for t in x.targets) and isinstance(x.value, ast.Call) and (
+        'Server' in unparse(x.value.func)):
+      n += 1
+      pm = parent_map(fi.node)
+      blk = pm.get(x)
+      body = getattr(blk, 'body', []) if blk is not None else []
+      clears = any(isinstance(y, ast.Assign) and any(is_self_attr(t, '_shutdown_requested') for t in y.targets) and isinstance(
+          y.value, ast.Constant) and y.value.value is False for b in body for y in ast.walk(b))
+      what = 'CourierServer.build_server: a new underlying server starts without a pending shutdown request'
+      if clears:
+        ctx.ok(rule, fi, what, x)
+      else:
+        ctx.fail(rule, fi, what,
+                 f'`{unparse(x)[:60]}` constructs the new server without clearing `self._shutdown_requested` in the same block:'
+                 ' a server object that was shut down before keeps answering "Shutdown requested" after it is started again'
+                 ' (the serving loop that could clear it is only spawned once per object)', node=x)
+  if not n:
+    raise AnalysisError(f'{rule}: build_server no longer constructs the courier server')
+  ctx.floor(rule, 1, n)
+
+
 def r13(ctx: Ctx):
   rule = 'R-C16-13'
   ctx.rule(rule, '"the same aggregate result": the runner the master merges and finalises with'
@@ -702,6 +766,11 @@ from mlmverif.selfcheck import B, OK  # noqa: E402
 _T = 'chainables/transform.py'
 _O = 'chainables/orchestrate.py'
 VARIANTS = [
+    B('every-runner-of-a-chain-drops-its-outputs', 'chainables/transform.py',
+      '          iterator,\n          with_agg_state=with_agg_state,\n          state=state if r.has_agg else None,',
+      '          iterator,\n          with_result=with_result,\n          with_agg_state=with_agg_state,\n          state=state if r.has_agg else None,', 'R-C16-17'),
+    B('shutdown-flag-cleared-by-the-loop-only', 'chainables/courier_server.py',
+      '    if self._server is None:\n      self._shutdown_requested = False\n      self._server = courier.Server(', '    if self._server is None:\n      self._server = courier.Server(', 'R-C16-18'),
     B('default-shards-from-live-workers', _O,
       '  num_shards = num_shards or worker_pool.num_workers', '  num_shards = num_shards or len(worker_pool.workers)', 'R-C16-16'),
     B('client-pipelines-next-batch-request', 'utils/courier_utils.py',
